@@ -321,6 +321,9 @@ def statements(ctx: Ctx, py: PyProgram) -> None:
     for d in ("defb 0x9A01", "defb 1, 0x9A01, 3", "defw 0x9A01", "defw 1, 0x9A01", "defl 0x9A01", "defl 0x9A01, 2"):
         width = {"defb": 8, "defw": 16, "defl": 24}[d.split()[0]]
         jobs.append(("data", d, (("0x9A01", _symw(width)),)))
+    # the grammar's other def_arg alternative, a string literal, under every data directive
+    for d in ('defb "AB", 1', 'defb "A"', 'defw "ABC"', 'defw "A", 2', 'defl "AB"', 'defl "ABCD", 3'):
+        jobs.append(("data", d, ()))
     jobs.append(("data", "defs 5", ()))
     jobs.append(("data", 'defm "hello"', ()))
     jobs.append(("data", 'defm "A\\r\\n"', ()))
